@@ -34,6 +34,8 @@ def run(prog, chk):
     C06.output_order(prog, chk)
     error_swallow(prog, chk)
     missing_bbox_default(prog, chk)
+    from props import strops
+    strops.check_for(prog, chk, "C10")  # A14.str-ops: how this property's strings are cut up is a reviewed, frozen inventory
 
 
 def _err_blocks(body):
